@@ -4,7 +4,11 @@ Theorems (Props/C05.v): the mechanism (context filled along graph.static_order, 
 delayed proxies: Model/Build.v) computes the compositional reference semantics (Model/Core.v: unm / mar).
 Tie: the mechanism model is run along the node order OBSERVED on the implementation and compared with the
 implementation's results and with the reference semantics; the oracle checks the statement one level deep
-on the implementation with member routines obtained by independent factory calls.
+on the implementation with member routines obtained by independent factory calls, and then again at every
+composite member (every nesting depth).
+Round 3 (harness/c05_strata.py, notes/C05.md): member inputs that are distinct but ==/hash-equal inside one
+composite value, and call histories on one cached routine (no cache cleared between the calls), in the
+correspondence and in the oracle; Props/C05.v states what the model says about histories.
 """
 from __future__ import annotations
 
@@ -13,16 +17,22 @@ import random
 import warnings
 
 import bridgetie
+import c05_strata
 import coregen
 import coremodel
 import coreprop
 import impl
 import lib
+import dispatchtie
+import iotie
 import universe
 
 COQ_TARGETS = ["theories/Props/C05.vo", "theories/Props/C05Bridge.vo", "theories/Model/BuildTables.vo",
                "theories/Model/CoreTables.vo", "theories/Model/GraphBridgeEq.vo"]
-THEOREMS = ["C05_build_routes", "C05_unmarshal", "C05_marshal"]
+COQ_TARGETS = COQ_TARGETS + [t for t in dispatchtie.COQ_TARGETS if t not in COQ_TARGETS]
+COQ_TARGETS = COQ_TARGETS + [t for t in iotie.COQ_TARGETS if t not in COQ_TARGETS]
+THEOREMS = ["C05_build_routes", "C05_unmarshal", "C05_marshal",
+            "C05_unmarshal_history", "C05_marshal_history", "C05_history_position_independent"]
 BRIDGE_THEOREMS = ["C05_contract_from_graph", "C05_contract_from_graph_env", "C05_root_from_graph",
                    "C05_orders_contract_from_graph", "C05_unmarshal_from_graph", "C05_marshal_from_graph",
                    "C07_build_total_from_graph", "C07_all_depths_from_graph", "C15_construction_total_from_graph",
@@ -90,18 +100,25 @@ def correspond(run: lib.Run):
     groups, records = coreprop.generate(run, n, seed_offset=5, env_fn=env_fn, roots_fn=roots_fn,
                                         values_per_root=run.budget(2, 3))
     run._c05 = (groups, records)
+    # round 3: ==-equal member inputs inside one composite, and call histories on one cached routine (c05_strata)
+    eq_groups, plans, eq_dist = c05_strata.generate(run)
+    run._c05_plans = (eq_groups, plans)
+    groups = groups + eq_groups
     problems = []
     for g in groups:
         for t in g.pytys:
             g.collect_orders(t)
         problems += g.order_problems
     run.oblige("tie:every observed graph node has a model annotation", not problems, "; ".join(problems[:3]))
-    bs, bm, ba = coremodel.evaluate_groups_mech(run, groups, "c05")
+    bs, bm, ba = coremodel.evaluate_groups_mech(run, groups, "c05", per_file=6)
     ncases = sum(len(g.cases) for g in groups)
     distinct = len({(g.env["module"], c[0], c[1], c[2]) for g in groups for c in g.cases})
-    dist = {"groups": len(groups), "cyclic_groups": sum(1 for i in range(len(groups)) if i % 3 == 2),
+    dist = {"groups": len(groups), "cyclic_groups": sum(1 for i in range(len(groups) - len(eq_groups)) if i % 3 == 2),
             "orders": sum(len(g.orders["u"]) for g in groups),
-            "observed_raise": sum(1 for g in groups for c in g.cases if "Raise" in c[3])}
+            "observed_raise": sum(1 for g in groups for c in g.cases if "Raise" in c[3]),
+            "random_stream_cases": sum(len(g.cases) for g in groups[:len(groups) - len(eq_groups)]),
+            "equal_member_and_history_cases": sum(len(g.cases) for g in eq_groups),
+            "equal_member_strata": eq_dist}
     run.record_corr("reference-semantics-vs-implementation", ncases, [g.cases[i][4] for g, i in bs], distinct, dist)
     run.record_corr("mechanism-on-observed-order-vs-implementation", ncases, [g.cases[i][4] for g, i in bm], distinct, dist)
     run.record_corr("mechanism-vs-reference-semantics", ncases, [g.cases[i][4] for g, i in ba], distinct, dist)
@@ -109,6 +126,9 @@ def correspond(run: lib.Run):
     # one module, two descriptions: the hypotheses of graph_orders (Props/C05Bridge.v) are decided on every
     # observed order that lies in the translated fragment (notes/bridge.md); tie:order_ok above stays as a cross-check
     bridgetie.bridge_obligations(run, groups, "c05")
+    # the head-constructor dispatch Build.construct assumes IS the first-match dispatch over the live _HANDLERS tables (dyn/Dispatch)
+    lib.run_tie(run, dispatchtie, streams=False, core=True, groups=groups[:len(groups) - len(eq_groups)], tag="c05")
+    lib.run_tie(run, iotie, streams=False)
     if groups and groups[0].cases:
         run.samples.append(groups[0].cases[0][4])
 
@@ -119,11 +139,14 @@ def correspond(run: lib.Run):
 
 class OneLevel(coremodel.Mirror):
     """The composite is rebuilt from each member converted by an independently obtained routine:
-    below the top level every member conversion is a fresh call of the public API."""
+    below the top level every member conversion is a fresh call of the public API (all caches cleared first).
+    Composite members are remembered (annotation, input, what the fresh call returned) so that the same statement
+    can be read one level further down."""
 
     def __init__(self, group):
         super().__init__(group.reg, coreprop.suppressed()["u"])
         self.g = group
+        self.children = []
         self.py = {}
         for py, d in group.reg.rev:
             self.py.setdefault(repr(d), py)
@@ -142,11 +165,19 @@ class OneLevel(coremodel.Mirror):
         try:
             with warnings.catch_warnings():
                 warnings.simplefilter("ignore")
-                return unmarshals.unmarshal(t, v) if direction == "u" else marshals.marshal(v, t=t)
+                r = unmarshals.unmarshal(t, v) if direction == "u" else marshals.marshal(v, t=t)
         except RecursionError:
+            self._child(direction, d, v, ("raise", "ERecursion"))
             raise coremodel.ModelRaise("ERecursion")
         except BaseException as e:
+            self._child(direction, d, v, ("raise", impl.exc_kind(e)))
             raise coremodel.ModelRaise(impl.exc_kind(e))
+        self._child(direction, d, v, ("ok", r))
+        return r
+
+    def _child(self, direction, d, v, res):
+        if is_composite(self.g, d):
+            self.children.append((direction, d, v, res))
 
     def unm(self, d, x):
         if self.depth >= 1 and d[0] not in ("newtype", "alias", "final", "classvar"):
@@ -168,37 +199,138 @@ def strip(d):
     return d
 
 
-def check_record(rec, fails, stats):
-    g = rec.group
-    top = strip(rec.tdesc)
+def resolve_root(g, d):
+    """the composite a level is about: transparent wrappers and named aliases in front of it are looked through
+    (their transparency is C13's statement, not this one's)"""
+    for _ in range(20):
+        d = strip(d)
+        if d[0] in ("name", "ref", "aliasstr"):
+            n = d[1] if d[0] != "aliasstr" else d[2]
+            df = g.env["defs"].get(n)
+            if df is not None and df[0] == "alias":
+                d = df[2] if isinstance(df[1], str) else df[1]
+                continue
+        if d[0] == "wrapref":
+            d = d[1]
+            continue
+        return d
+    return d
+
+
+def is_composite(g, d):
+    top = resolve_root(g, d)
     if top[0] not in COMPOSITE:
-        return
+        return False
     if top[0] in ("name", "ref", "aliasstr"):
         n = top[1] if top[0] != "aliasstr" else top[2]
-        if g.env["defs"][n][0] != "class":
-            return
+        return g.env["defs"].get(n, ("?",))[0] == "class"
+    return True
+
+
+def level_check(g, direction, d, x):
+    """the statement, one level deep, at annotation d and input x: -> (('ok', rebuilt) | ('raise', kind) | None,
+    composite members met on the way)"""
+    one = OneLevel(g)
+    top = resolve_root(g, d)
+    try:
+        expected = ("ok", one.unm(top, x) if direction == "u" else one.mar(top, x))
+    except coremodel.ModelRaise as e:
+        expected = ("raise", e.kind)
+    except RecursionError:
+        return None, []
+    return expected, one.children
+
+
+def _failure(g, direction, d, srcs, step, x, obs, expected, symptom, extra=None):
+    from typelib import unmarshals
+    f = {"symptom": symptom, "direction": direction, "tdesc": d, "history": srcs, "step": step,
+         "type": universe.src_ty(d, g.env), "input": repr(x)[:400],
+         "got": repr(obs[1])[:400] if obs[0] == "ok" else obs[1],
+         "expected": repr(expected[1])[:400] if expected[0] == "ok" else expected[1],
+         "module_source": g.src, "env": _env_json(g.env),
+         "key": json.dumps(["C05", direction, repr(d)[:200], srcs and [s[:120] for s in srcs], repr(x)[:200]])}
+    f.update(extra or {})
+    return f
+
+
+def descend(g, direction, d, x, obs, fails, stats, extra, depth=0):
+    """the same statement at every nesting depth: `obs` is what a fresh call of the API returned for (d, x)"""
+    if depth > 8 or stats.get("levels", 0) > stats.get("level_cap", 10 ** 9):
+        return
+    expected, children = level_check(g, direction, d, x)
+    if expected is None:
+        return
+    stats["evaluations"] += 1
+    stats["levels"] = stats.get("levels", 0) + 1
+    stats["nested_levels"] = stats.get("nested_levels", 0) + (depth > 0)
+    stats["nontrivial"] += expected[0] == "ok"
+    if not c05_strata.agree(expected, obs):
+        src = c05_strata.pysrc(x, g.reg)
+        fails.append(_failure(g, direction, d, [src] if src is not None else None, 0, x, obs, expected,
+                              "composite differs from its members converted independently"
+                              + (" (nested level)" if depth else ""), extra))
+        return
+    for cdir, cd, cx, cobs in children:
+        descend(g, cdir, cd, cx, cobs, fails, stats, extra, depth + 1)
+
+
+def check_history(g, d, pytype, direction, xs, srcs, fails, stats, extra=None):
+    """calls of the API on ONE annotation, one after the other, no cache cleared in between: every call's result is
+    the composite rebuilt from members converted by independently obtained routines; then the same for every nested
+    composite member (fresh calls)"""
+    obs = c05_strata.run_history(g, pytype, direction, xs)
+    before = len(fails)
+    for k, (x, o) in enumerate(zip(xs, obs)):
+        expected, children = level_check(g, direction, d, x)
+        if expected is None:
+            continue
+        stats["evaluations"] += 1
+        stats["levels"] = stats.get("levels", 0) + 1
+        stats["nontrivial"] += expected[0] == "ok"
+        stats["history_calls"] = stats.get("history_calls", 0) + (len(xs) > 1)
+        if not c05_strata.agree(expected, o):
+            keep = _shrink_history(g, d, pytype, direction, xs, k, expected)
+            fails.append(_failure(
+                g, direction, d, [srcs[i] for i in keep] if srcs else None, len(keep) - 1, x, o, expected,
+                "composite differs from its members converted independently"
+                + (" (after earlier calls of the same routine)" if len(keep) > 1 else ""), extra))
+            continue
+        for cdir, cd, cx, cobs in children:
+            descend(g, cdir, cd, cx, cobs, fails, stats, extra, 1)
+    return len(fails) > before
+
+
+def _shrink_history(g, d, pytype, direction, xs, k, expected):
+    """smallest sub-history (the call alone, one earlier call + the call, the whole prefix) that still fails at call k"""
+    cands = [[k]] + [[i, k] for i in range(k)] + [list(range(k + 1))]
+    for keep in cands[:-1]:
+        o = c05_strata.run_history(g, pytype, direction, [xs[i] for i in keep])[-1]
+        if not c05_strata.agree(expected, o):
+            return keep
+    return cands[-1]
+
+
+def check_record(rec, fails, stats, deep=False):
+    g = rec.group
+    if not is_composite(g, rec.tdesc):
+        return
     cases = [("m", rec.value, rec.wire)] + [("u", x, obs) for _, x, obs in rec.inputs]
     for direction, x, obs in cases:
-        one = OneLevel(g)
-        try:
-            expected = ("ok", one.unm(rec.tdesc, x) if direction == "u" else one.mar(rec.tdesc, x))
-        except coremodel.ModelRaise as e:
-            expected = ("raise", e.kind)
-        except RecursionError:
+        expected, children = level_check(g, direction, rec.tdesc, x)
+        if expected is None:
             continue
         stats["evaluations"] += 1
         stats["nontrivial"] += expected[0] == "ok"
         ok = (expected[0] == obs[0]) and (expected[0] == "raise" or coreprop.same(expected[1], obs[1])
                                           or repr(expected[1]) == repr(obs[1]))
         if not ok:
-            fails.append({
-                "symptom": "composite differs from its members converted independently",
-                "direction": direction, "type": repr(rec.pytype), "tdesc": rec.tdesc, "input": repr(x)[:400],
-                "got": repr(obs[1])[:400] if obs[0] == "ok" else obs[1],
-                "expected": repr(expected[1])[:400] if expected[0] == "ok" else expected[1],
-                "module_source": g.src, "env": _env_json(g.env), "root_index": rec.ri,
-                "key": json.dumps(["C05", direction, repr(rec.tdesc)[:200], repr(x)[:200]]),
-            })
+            src = c05_strata.pysrc(x, g.reg)
+            fails.append(_failure(g, direction, rec.tdesc, [src] if src is not None else None, 0, x, obs, expected,
+                                  "composite differs from its members converted independently",
+                                  {"root_index": rec.ri}))
+        elif deep:
+            for cdir, cd, cx, cobs in children:
+                descend(g, cdir, cd, cx, cobs, fails, stats, {"root_index": rec.ri}, 1)
 
 
 def _env_json(env):
@@ -325,50 +457,111 @@ def search(run: lib.Run, broken):
     groups, records = getattr(run, "_c05", (None, None))
     if groups is None:
         groups, records = coreprop.generate(run, run.budget(14, 160), seed_offset=5, env_fn=env_fn, roots_fn=roots_fn)
+    eq_groups, plans = getattr(run, "_c05_plans", (None, None))
+    if eq_groups is None:
+        eq_groups, plans, _ = c05_strata.generate(run)
     fails = []
     stats = {"evaluations": 0, "nontrivial": 0}
-    limit = len(records) if (broken or run.tier == "thorough") else min(len(records), 250)
-    for rec in records[:limit]:
-        check_record(rec, fails, stats)
+    # corpus first
+    for name, payload in corpus():
+        r = replay(payload)
+        stats["evaluations"] += 1
+        if r.get("fails"):
+            for f in r["failures"]:
+                f = dict(payload, **f)
+                f["symptom"] = f.get("symptom", "corpus") + f" [corpus {name}]"
+                fails.append(f)
+    # the two round-3 strata: ==-equal members inside one call, call histories on one routine; every nesting depth
+    hstats = {"evaluations": 0, "nontrivial": 0}
+    for p in plans:
+        g = p.group
+        try:
+            xs = p.inputs()
+        except Exception:
+            continue
+        check_history(g, g.roots[p.ri], g.pytys[p.ri], p.direction, xs, p.srcs, fails, hstats,
+                      {"member": p.member, "family": p.family, "shape": p.shape, "history_kind": p.kind})
+        if len(fails) > 60:
+            break
+    thorough = bool(broken) or run.tier == "thorough"
+    limit = len(records) if thorough else min(len(records), 250)
+    stats["level_cap"] = 10 ** 9 if broken else (30000 if thorough else 2500)     # nested levels read per run
+    for i, rec in enumerate(records[:limit]):
+        check_record(rec, fails, stats, deep=True)
         sources_alike(rec, fails, stats)
-        if len(fails) > 40:
+        if len(fails) > 100:
             break
     cross_module(fails, stats, run.rng)
     run.search_stats["oracle"] = {
         "evaluations": stats["evaluations"], "distinct_nontrivial": stats["nontrivial"], "records": limit,
+        "nested_levels": stats.get("nested_levels", 0),
         "failures": len(fails),
         "rule": "for each generated composite annotation and each input (valid value, wire form, JSON/literal text, "
                 "corrupted wire, unrelated object) the implementation's result is compared with the composite rebuilt "
                 "from each member converted by an independent call of the public API (caches cleared), incl. exception "
-                "parity; structured sources in mapping / pairs / JSON shape must convert alike; same-named classes in "
+                "parity, and then the same statement is read at every composite member (every nesting depth); "
+                "structured sources in mapping / pairs / JSON shape must convert alike; same-named classes in "
                 "two modules; non-trivial = the rebuilt composite is a value (not a rejection)",
+    }
+    run.search_stats["oracle-equal-members-and-histories"] = {
+        "evaluations": hstats["evaluations"], "distinct_nontrivial": hstats["nontrivial"], "histories": len(plans),
+        "calls_in_multi_call_histories": hstats.get("history_calls", 0), "nested_levels": hstats.get("nested_levels", 0),
+        "rule": "c05_strata: for every member position of every composite routine (root and nested), a catalogue of "
+                "member types and families of distinct ==/hash-equal inputs the member type renders differently: "
+                "(A) one call holding several of them, (B) several calls on one annotation with NO cache cleared in "
+                "between; every call's result = the composite rebuilt from members converted by independent API calls "
+                "(caches cleared), same class at every position incl. mapping keys, sign of zero and Decimal exponent; "
+                "then every nested composite member likewise; both directions",
     }
     # keep the smallest failure per symptom
     best = {}
     for f in fails:
         k = f["symptom"]
-        size = len(f.get("input", "")) + len(f.get("type", ""))
+        size = len(str(f.get("history") or f.get("input", ""))) + len(f.get("type", ""))
         if k not in best or size < best[k][0]:
             best[k] = (size, f)
     coreprop.close(groups)
+    coreprop.close(eq_groups)
     return [v[1] for v in best.values()]
 
 
+def corpus():
+    import os
+    d = os.path.join(lib.VERIF, "corpus", "C05")
+    out = []
+    if os.path.isdir(d):
+        for name in sorted(os.listdir(d)):
+            if name.endswith(".json"):
+                try:
+                    out.append((name, json.load(open(os.path.join(d, name)))))
+                except Exception:
+                    pass
+    return out
+
+
 def replay(payload):
-    if "module_source" not in payload or "tdesc" not in payload:
-        return {"fails": False, "note": "replay needs module_source + tdesc"}
-    env = {"module": payload["env"]["module"] + "_replay",
+    if "env" not in payload or "tdesc" not in payload:
+        return {"fails": False, "note": "replay needs env + tdesc"}
+    env = {"module": payload["env"]["module"].split("_replay")[0] + "_replay",
            "defs": {(int(k) if k.isdigit() else k): _tup(v) for k, v in payload["env"]["defs"].items()}}
     roots = [_tup(payload["tdesc"])]
     g = coremodel.Group(env, roots, coreprop.suppressed())
-    x = eval(payload["input"], dict(g.mod.__dict__))
-    rec = coreprop.Record(g, 0, x)
-    rec.wire = g.observe("m", 0, x)
-    rec.inputs = [("replay", x, g.observe("u", 0, x))]
     fails, stats = [], {"evaluations": 0, "nontrivial": 0}
-    check_record(rec, fails, stats)
-    g.close()
-    return {"fails": bool(fails), "failures": [{k: v for k, v in f.items() if k != "module_source"} for f in fails]}
+    try:
+        if payload.get("history"):
+            xs = [eval(s, dict(g.mod.__dict__)) for s in payload["history"]]
+            dirs = [payload["direction"]] if payload.get("direction") in ("u", "m") else ["u", "m"]
+            for d in dirs:
+                check_history(g, g.roots[0], g.pytys[0], d, xs, payload["history"], fails, stats)
+        else:
+            x = eval(payload["input"], dict(g.mod.__dict__))
+            rec = coreprop.Record(g, 0, x)
+            rec.wire = g.observe("m", 0, x)
+            rec.inputs = [("replay", x, g.observe("u", 0, x))]
+            check_record(rec, fails, stats, deep=True)
+    finally:
+        g.close()
+    return {"fails": bool(fails), "failures": [{k: v for k, v in f.items() if k not in ("module_source", "env")} for f in fails]}
 
 
 def _tup(x):
